@@ -119,6 +119,9 @@ def gen_plan(rng, prof):
         if len(c) > 1:
             for _ in range(len(c) - 1):
                 actions.append(["resubmit", j])
+            if c[-1] == 0 and prof.p_dup and rng.random() < max(prof.p_dup, 0.5):
+                # an equal task submitted once more after the re-submission that succeeds (while it waits, runs or is done)
+                actions.append(["dup", j])
             if c[-1] == 0:
                 for d in down(j):
                     if all(jobs[u]["codes"][-1] == 0 for u in range(n) if u == d or d in down(u)):
@@ -177,6 +180,10 @@ def plan_features(plan):
         f.add("foreign" + (":twostep" if plan["foreign"].get("twostep") else ""))
     if any(a[0] == "dup" for r in plan["runs"] for a in r["actions"]):
         f.add("dup")
+    for r in plan["runs"]:
+        for i, a in enumerate(r["actions"]):
+            if a[0] == "dup" and any(b == ["resubmit", a[1]] for b in r["actions"][:i]):
+                f.add("dup-after-resubmit")
     return f
 
 
